@@ -300,8 +300,11 @@ def p2(ctx):
     ):
         for fut in ('SendFuture', 'ReceiveFuture'):
             key = "future::%s::<'a, T>::%s" % (fut, suffix)
-            b = body(key)
+            b = ctx.body(key)
             if b is None:
+                # the helper may be written out or live in a free function shared by both futures: then every use of the
+                # future's local data on the poll/drop paths carries its own size decision (checked below)
+                ctx.note('%s not present' % key)
                 continue
             ctx.instance(key)
             n = 0
@@ -310,11 +313,28 @@ def p2(ctx):
                 got = touches(p, evs)
                 ctx.oblige(1, sample='%s big=%s touches %s' % (key, big, sorted(got)))
                 if big is None:
+                    if suffix == 'drop_local_data' and has(labels(evs), 'needs_drop', 'F') and not (got & {'OWN_SLOT_DROP', 'VIA_SIGNAL_DROP', 'PTR_READ', 'PTR_WRITE', 'PTR_COPY'}):
+                        continue  # `if !needs_drop::<T>() { return }` folded into the helper: nothing to drop, nothing touched
                     ctx.violate(key, p, '%s does not decide on the size predicate' % suffix)
                     continue
                 n += 1
                 must, mustnot = tbl[big]
                 expect(ctx, key, p, got, must=must, mustnot=mustnot, what='%s for %s T' % (suffix, 'large' if big == 'T' else 'small'))
+    # local data touched directly on a future's own paths (helpers spliced or written out): slot <=> large T, signal bits <=> small T
+    for key in ("<future::SendFuture<'_, T> as futures_core::Future>::poll", "<future::ReceiveFuture<'_, T> as futures_core::Future>::poll",
+                "<future::SendFuture<'_, T> as std::ops::Drop>::drop", "<future::ReceiveFuture<'_, T> as std::ops::Drop>::drop"):
+        b = ctx.body(key)
+        if b is None:
+            continue
+        for p, evs in ret_paths(ctx, b):
+            for e in evs:
+                if e.name in ('FUT.read_local_data', 'FUT.drop_local_data') and e.data.get('derived'):
+                    ctx.oblige(1, sample='%s: %s via %s' % (key, e.name, e.data.get('via')))
+                    lb = labels(evs, upto=e.idx)
+                    want = 'T' if e.data.get('via') == 'slot' else 'F'
+                    if not has(lb, 'big', want) or has(lb, 'big', 'F' if want == 'T' else 'T'):
+                        ctx.violate(key, p, 'the future\'s local data is %s through the %s although the size predicate says %s' % (
+                            'read' if 'read' in e.name else 'dropped', 'data slot' if want == 'T' else 'signal bits', 'small T' if want == 'T' else 'large T'), at=e.at)
     for key in ("<future::SendFuture<'_, T> as futures_core::Future>::poll", "<future::ReceiveFuture<'_, T> as futures_core::Future>::poll"):
         b = body(key)
         if b is None:
